@@ -5,8 +5,11 @@
 (*                                                                         *)
 (* Objects are records with ego-relative integer coordinates:              *)
 (*   [x, y, label, conf, attr, pts, uuid]                                  *)
-(*     conf : confidence (integer percent), attr : carries an ignored      *)
-(*     attribute, pts : lidar points inside, uuid : is in the target list  *)
+(*     conf : confidence (integer percent), attr : 0 = no attribute, 1 =   *)
+(*     carries exactly an ignored attribute, 2 = carries an attribute that *)
+(*     merely contains the ignored key as a sub-string (NOT ignored), 3 =  *)
+(*     its original label name contains the ignored key (ignored);         *)
+(*     pts : lidar points inside, uuid : is in the target list             *)
 (* Parameters P:                                                           *)
 (*   [targets : Seq(label), ignoreAttr : BOOLEAN,                          *)
 (*    xmax, ymax, dmax, dmin : per-label bounds in HALF units (<<>> =      *)
@@ -27,6 +30,9 @@ SumTo(s, i) == IF i = 0 THEN 0 ELSE SumTo(s, i - 1) + s[i]
 Sum(s) == SumTo(s, Len(s))
 
 Thr(l, targets, list) == list[IndexOf(l, targets)]
+
+\* Label.contains_any: the key is a sub-string of the original name or a member of the attribute list
+HasIgnored(o) == o.attr \in {1, 3}
 
 Relaxed(o, isGT, P) == IsUnknown(o.label) /\ ~isGT /\ ~InTargets(UNKNOWN, P.targets)
 
@@ -53,7 +59,7 @@ IsTarget(o, isGT, P) ==
   ELSE
     LET rel == Relaxed(o, isGT, P) IN
     /\ (rel \/ P.targets = <<>> \/ InTargets(o.label, P.targets))
-    /\ (rel \/ ~P.ignoreAttr \/ ~o.attr)
+    /\ (rel \/ ~P.ignoreAttr \/ ~HasIgnored(o))
     /\ (isGT \/ P.conf = <<>> \/ (IF rel THEN o.conf > 0 ELSE o.conf > Thr(o.label, P.targets, P.conf)))
     /\ Below(2 * Abs(o.x), P.xmax, o, rel, P)
     /\ Below(2 * Abs(o.y), P.ymax, o, rel, P)
